@@ -70,8 +70,8 @@ def instantiate(tmpl, mixed=False):
     else:
         vals, lits = [], []
         for i in range(n):
-            k = i % 6
-            x = [f'0{2001 + i}', 3001.5 + i, f's{i}x', f'{4001 + i}', 5001 + i, f'{i}\u00b2'][k]
+            k = i % 10
+            x = [f'0{2001 + i}', 3001.5 + i, f's{i}x', f'{4001 + i}', 5001 + i, f'{i}\u00b2', 0, '', -(6001 + i), f'x{i} y'][k]
             vals.append(x)
             lits.append("'" + x + "'" if isinstance(x, str) else str(x))
     v = tmpl
